@@ -406,7 +406,7 @@ func c11Transcript(req c11Req, o *ref.Oracle, resp *drv.Response, rng *rand.Rand
 		}
 		nsq += len(op.Outs)
 	}
-	for _, variant := range req.Variants {
+	load := func() *data.Loaded {
 		l := data.Load(inst, req.K)
 		if req.FinalLen > 0 && req.FinalLen < len(l.PWPI.Proof.OpeningProof.FinalPoly.Coeffs) {
 			// the transcript of a proof whose final polynomial leaves the sponge's input block partly filled when the proof-of-work
@@ -414,6 +414,10 @@ func c11Transcript(req c11Req, o *ref.Oracle, resp *drv.Response, rng *rand.Rand
 			cs := l.PWPI.Proof.OpeningProof.FinalPoly.Coeffs
 			l.PWPI.Proof.OpeningProof.FinalPoly.Coeffs = append(cs[:0:0], cs[:req.FinalLen]...)
 		}
+		return l
+	}
+	for _, variant := range req.Variants {
+		l := load()
 		base := variant
 		if i := strings.Index(variant, "+pow"); i >= 0 {
 			// the transcript does not depend on the grinding difficulty: plonky2 always observes the witness and draws the response
@@ -478,7 +482,7 @@ func c11Transcript(req c11Req, o *ref.Oracle, resp *drv.Response, rng *rand.Rand
 			if i := strings.Index(s, "#chunk@"); i >= 0 {
 				path = s[:i]
 			}
-			l2 := data.Load(inst, req.K)
+			l2 := load()
 			found := false
 			for _, lf := range append(walkPrefixed("PWPI.", &l2.PWPI), walkPrefixed("VD.", &l2.VD)...) {
 				if lf.Path == path {
